@@ -456,6 +456,7 @@ func (r *Runner) Apply(k int, op OpSpec) {
 		r.oracleC02(s, k, op, headBefore, hdrBefore)
 	}
 	if r.Prop != "C02" {
+		r.oracleHeaderCleanup(s, k, op, hdrBefore)
 		r.oracleC03(s, k, op)
 		r.oracleReceipts(s, k)
 	}
